@@ -37,6 +37,10 @@ def pairs(seed):
         ("todo.zo", "tasks.zo"),   # base name ends in characters of the extension
         ("zoo", "buzz"),
         (f"ABS:{a}.zo", f"ABS:{b}.zo"),  # absolute paths under the notes directory
+        # names that are not in Unicode normal form C (a base letter and a combining accent, the
+        # Angstrom sign): the bytes given on the command line are the name, in the link as on disk
+        ("cafe\u0301", b),
+        (a, "r\u212bsume\u0301"),
     ]
 
 
@@ -137,7 +141,8 @@ def _run_case(ctx, case) -> F.Outcome:
             # compiled link sets differ by exactly that substitution
             a, b = link_name(A), link_name(B)
             before_l, after_l = _links(files["other.zo"]), _links(after["other.zo"])
-            if before_l is not None and after_l is not None:
+            # (the compiler drops non-ASCII characters, so its link names say nothing about such pages)
+            if before_l is not None and after_l is not None and (a + b).isascii():
                 mapped = [sorted({b + l[len(a):] if (l == a or l.startswith(a + "#")) else l for l in ls}) for ls in before_l]
                 if mapped != after_l:
                     problem = ("compiled-link-sets-differ", {"before": before_l, "after": after_l, "expected": mapped})
